@@ -25,43 +25,91 @@ Proof.
   repeat split; try lia; try assumption. apply w64_small. lia.
 Qed.
 
-(* alloc: aligned, inside the block obtained from the wrapped allocator, header recoverable *)
+(* what the overflow test of 532034f guarantees *)
+Lemma al_too_large_false c size :
+  0 < g_align c -> g_align c + PTR_SIZE <= two64 -> 0 <= size -> al_too_large c size = false ->
+  size + PTR_SIZE + g_align c <= two64 /\ al_request c size = size + (PTR_SIZE + g_align c - 1).
+Proof.
+  unfold al_too_large, al_request, PTR_SIZE. intros HA Hb Hs H.
+  rewrite Z.gtb_ltb in H. apply Z.ltb_ge in H.
+  rewrite (w64_small (8 + g_align c - 1)) in * by lia.
+  assert (E1 : w64 (-1) = two64 - 1) by reflexivity. rewrite E1 in H.
+  rewrite (w64_small (two64 - 1 - (8 + g_align c - 1))) in H by lia.
+  split; [lia|]. apply w64_small. lia.
+Qed.
+
+Lemma al_too_large_true c s size : al_too_large c size = true -> aligned_alloc c s size = Some (s, 0).
+Proof. unfold aligned_alloc. intros ->. reflexivity. Qed.
+
+(* alloc: aligned, inside the block obtained from the wrapped allocator, header recoverable.
+   No bound on the size: the request never wraps (the code tests for it). *)
 Theorem aligned_alloc_spec_proof : forall c s size s' p,
-  pow2 (g_align c) -> PTR_SIZE <= g_align c -> 0 <= size ->
-  size + PTR_SIZE + g_align c <= two64 ->
+  pow2 (g_align c) -> PTR_SIZE <= g_align c -> g_align c + PTR_SIZE <= two64 -> 0 <= size ->
   (forall a' origp, arena_alloc (g_inner c) (g_arena s) (al_request c size) = Some (a', origp) -> origp <> 0 ->
      0 < origp /\ origp + al_request c size <= two64 - 1) ->
   aligned_alloc c s size = Some (s', p) -> p <> 0 ->
+  al_request c size = size + (PTR_SIZE + g_align c - 1) /\
   exists origp, arena_alloc (g_inner c) (g_arena s) (al_request c size) = Some (g_arena s', origp) /\ origp <> 0 /\
     p mod g_align c = 0 /\ origp + PTR_SIZE <= p /\ p + size <= origp + al_request c size /\
     aligned_realptr s' p = origp.
 Proof.
-  intros c s size s' p Hp Hal Hs Hfit Hin H Hpnz. unfold aligned_alloc in H.
+  intros c s size s' p Hp Hal HA64 Hs Hin H Hpnz. unfold aligned_alloc in H.
+  destruct (al_too_large c size) eqn:Etl; [inversion H; subst; contradiction|].
+  destruct (al_too_large_false c size (pow2_pos _ Hp) HA64 Hs Etl) as [Hfit Hreq].
+  split; [exact Hreq|].
   destruct (arena_alloc (g_inner c) (g_arena s) (al_request c size)) as [[a' origp]|] eqn:Ea; [|discriminate].
   destruct (origp =? 0) eqn:E0; [inversion H; subst; contradiction|]. apply Z.eqb_neq in E0.
   inversion H; subst s' p. clear H. destruct (Hin a' origp eq_refl E0) as [Ho Hb].
-  assert (Hreq : al_request c size = size + (PTR_SIZE + g_align c - 1)).
-  { unfold al_request, PTR_SIZE in *. pose proof (pow2_pos _ Hp). rewrite (w64_small (8 + g_align c - 1)) by lia. apply w64_small. lia. }
   destruct (aligned_arith_proof c origp size Hp Hal Ho Hs ltac:(unfold PTR_SIZE in *; lia)) as (_ & A2 & A3 & A4 & A5 & A6).
   exists origp. cbn [g_arena]. repeat split; auto.
   unfold aligned_realptr. cbn [g_hdr]. apply Z.eqb_neq in Hpnz. rewrite Hpnz. rewrite mget_mset_same. reflexivity.
 Qed.
 
-(* full-strength statement: whatever the size, a non-nil aligned block fits in the block obtained *)
+(* full strength, over the arena: in ANY reachable state of the wrapped arena (ainv), whatever the size,
+   a non-nil aligned block is aligned, lies inside a fresh good block of the arena (disjoint from all live
+   ones, inside the buffer), leaves room for its header below it, and the header gives the block back *)
+Theorem aligned_fits_proof : forall c s live size s' p,
+  acfg_ok (g_inner c) -> pow2 (g_align c) -> PTR_SIZE <= g_align c -> g_align c + PTR_SIZE <= two64 ->
+  ainv (g_inner c) (g_arena s) live -> 0 <= size < two64 ->
+  aligned_alloc c s size = Some (s', p) -> p <> 0 ->
+  exists origp,
+    ainv (g_inner c) (g_arena s') (live ++ [mkblk origp (al_request c size)]) /\
+    good_blocks (a_base (g_inner c)) (a_size (g_inner c)) (a_align (g_inner c)) (live ++ [mkblk origp (al_request c size)]) /\
+    p mod g_align c = 0 /\ origp + PTR_SIZE <= p /\ p + size <= origp + al_request c size /\
+    p + size <= a_base (g_inner c) + a_size (g_inner c) /\
+    aligned_realptr s' p = origp.
+Proof.
+  intros c s live size s' p Hc Hp Hal HA64 Hi Hs H Hpnz.
+  assert (Etl : al_too_large c size = false).
+  { destruct (al_too_large c size) eqn:E; [|reflexivity]. rewrite (al_too_large_true c s size E) in H. inversion H; subst. contradiction. }
+  destruct (al_too_large_false c size (pow2_pos _ Hp) HA64 ltac:(lia) Etl) as [Hfit Hreq].
+  assert (Hrq : 0 <= al_request c size < two64) by (unfold al_request, w64; apply Z.mod_pos_bound; unfold two64; lia).
+  destruct (arena_alloc_ok (g_inner c) Hc (g_arena s) live (al_request c size) Hi Hrq) as (a1 & o1 & Ha1 & _ & Hcase).
+  assert (Hgood : forall a' origp, arena_alloc (g_inner c) (g_arena s) (al_request c size) = Some (a', origp) -> origp <> 0 ->
+     ainv (g_inner c) a' (live ++ [mkblk origp (al_request c size)])).
+  { intros a' origp E Ho. rewrite Ha1 in E. inversion E; subst a1 o1. destruct Hcase as [[Hz _]|(_ & _ & _ & Hv)]; [contradiction | exact Hv]. }
+  assert (Hin : forall a' origp, arena_alloc (g_inner c) (g_arena s) (al_request c size) = Some (a', origp) -> origp <> 0 ->
+     0 < origp /\ origp + al_request c size <= two64 - 1).
+  { intros a' origp E Ho. pose proof (ainv_good _ _ _ (Hgood a' origp E Ho)) as (Hfi & _ & _).
+    apply Forall_app in Hfi. destruct Hfi as [_ Hfi]. apply Forall_inv in Hfi. unfold blk_in in Hfi. cbn [b_addr b_size] in Hfi.
+    destruct Hc as (HB & HS & Hpw & Hft). pose proof (pow2_pos _ Hpw). lia. }
+  destruct (aligned_alloc_spec_proof c s size s' p Hp Hal HA64 ltac:(lia) Hin H Hpnz) as (_ & origp & Ea & Ho & B1 & B2 & B3 & B4).
+  exists origp. pose proof (Hgood _ _ Ea Ho) as Hv. pose proof (ainv_good _ _ _ Hv) as Hg.
+  split; [exact Hv|]. split; [exact Hg|]. repeat split; auto.
+  destruct Hg as (Hfi & _ & _). apply Forall_app in Hfi. destruct Hfi as [_ Hfi]. apply Forall_inv in Hfi.
+  unfold blk_in in Hfi. cbn [b_addr b_size] in Hfi. lia.
+Qed.
+
+(* the statement refuted before repair 532034f, now a corollary *)
 Definition aligned_fits_full : Prop :=
-  forall c size s' p, acfg_ok (g_inner c) -> pow2 (g_align c) -> PTR_SIZE <= g_align c -> 0 <= size < two64 ->
+  forall c size s' p, acfg_ok (g_inner c) -> pow2 (g_align c) -> PTR_SIZE <= g_align c -> g_align c + PTR_SIZE <= two64 ->
+    0 <= size < two64 ->
     aligned_alloc c aligned_init size = Some (s', p) -> p <> 0 ->
     p + size <= a_base (g_inner c) + a_size (g_inner c).
 
-(* AlignedAllocator(ArenaAllocator(1024,8),64):alloc(2^64-8) requests 63 bytes and returns a pointer *)
-Theorem aligned_fits_refuted_proof : ~ aligned_fits_full.
+Theorem aligned_fits_full_proof : aligned_fits_full.
 Proof.
-  intros H. pose (c := mkgcfg (mkacfg 4096 1024 8) 64).
-  assert (Hc : acfg_ok (g_inner c)).
-  { unfold acfg_ok, c, pow2, two64. cbn. repeat split; try lia. exists 3. split; [lia | reflexivity]. }
-  assert (Hp : pow2 (g_align c)) by (exists 6; split; [lia | reflexivity]).
-  destruct (aligned_alloc c aligned_init (two64 - 8)) as [[s' p]|] eqn:E; [|vm_compute in E; discriminate E].
-  assert (Hpnz : p <> 0) by (vm_compute in E; inversion E; subst; intros Hx; discriminate Hx).
-  specialize (H c (two64 - 8) s' p Hc Hp ltac:(cbn; unfold PTR_SIZE; lia) ltac:(unfold two64; lia) E Hpnz).
-  vm_compute in E. inversion E; subst. cbn in H. unfold two64 in H. lia.
+  intros c size s' p Hc Hp Hal HA64 Hs H Hpnz.
+  destruct (aligned_fits_proof c aligned_init [] size s' p Hc Hp Hal HA64 (ainv_init _ Hc) Hs H Hpnz) as (o & _ & _ & _ & _ & _ & Hf & _).
+  exact Hf.
 Qed.
